@@ -10,6 +10,7 @@ import (
 	"golang.org/x/tools/go/ssa"
 
 	"verif/internal/core"
+	"verif/internal/obl"
 )
 
 func init() { register("C09", checkC09) }
@@ -370,6 +371,21 @@ func checkC09(rep *core.Report) {
 		checkReserved(r3, sd)
 	}
 	checkReaderFailureStoreFree(rep, r5)
+	// a short read must fail: every access of the byte reader stays within the buffer's length (not its capacity:
+	// the datagram is a prefix of a larger pooled buffer), for any buffer and argument (same obligations as C19)
+	r6 := rep.Rule("R09.6", "no reader method reads beyond the datagram's length, so a read that does not fit fails", 8)
+	{
+		prog := rep.Prog
+		cfg := oblConfig(prog)
+		cfg.StrictLen = func(fn *ssa.Function) bool { return core.PkgRel(fn) == "reader" }
+		an := obl.New(cfg)
+		for _, fn := range prog.RepoFuncs() {
+			if core.PkgRel(fn) == "reader" && fn.Synthetic == "" && fn.Parent() == nil && fn.Object() != nil && fn.Object().Exported() {
+				an.AnalyzeRoot(fn, obl.RootOpts{NonNilParams: true})
+			}
+		}
+		reportObligations(rep, r6, an, func(o *obl.Obligation) bool { return o.Kind == "K1" || o.Kind == "K7" }, nil)
+	}
 }
 
 func retKind(r *ssa.Return, loop *core.Loop) string {
